@@ -572,13 +572,14 @@ deriving Repr, DecidableEq
 def headerLen : Nat := 20
 
 inductive HErr where
-  | tooShort | missingAddress | extTooShort
+  | tooShort | missingAddress | extTooShort | invalidOptions
 deriving Repr, DecidableEq
 
 /-- `Header.Marshal`. -/
 def Header.marshal (h : Header) : Except HErr (List Nat) :=
   if h.len < headerLen then .error .tooShort else
   let hdrlen := headerLen + h.options.length
+  if h.options.length % 4 ≠ 0 ∨ hdrlen > 60 then .error .invalidOptions else
   let ff : Int := (h.fragOff % 8192) + h.flags * 8192
   if !isV4 h.dst then .error .missingAddress else
   .ok ([4 * 16 + hdrlen / 4 % 16, u8 h.tos] ++ be16 h.totalLen ++ be16 h.id ++ be16 ff ++
